@@ -12,7 +12,8 @@ def parseOp (t : String) : Option MOp :=
     | none => none
     | some r =>
       if c = 'g' then some (.get r false) else if c = 'G' then some (.get r true)
-      else if c = 'r' then some (.rel r) else if c = 'b' then some (.back r) else none
+      else if c = 'r' then some (.rel r) else if c = 'b' then some (.back r)
+      else if c = 'k' then some (.mark r) else none
   | [] => none
 
 /-- the groups after the op token -/
